@@ -251,7 +251,7 @@ def prove(prop_file, pregen_changed=False):
             closed += 1
         elif b.startswith('Axioms:'):
             for line in b.splitlines()[1:]:
-                m = re.match(r'^([A-Za-z_][\w.]*)\s*(?::|$)', line)
+                m = re.match(r'^([A-Za-z_]\w*\.[\w.]+)\s*(?::|$)', line)
                 if m and not line.startswith(' '):
                     axioms.add(m.group(1))
                 elif not line.startswith(' ') and line.strip() and not m:
